@@ -13,7 +13,7 @@ from harness.pool import Pool
 
 def run(ctx) -> None:
     mp = 2 if ctx.quick else 3
-    ctx.rule = (f"cases = every preamble of <= {mp} of 12 item kinds x 7 fault kinds x 2 indentations x 3 tails x main/included; "
+    ctx.rule = (f"cases = every preamble of <= {mp} of 15 item kinds x 8 fault kinds x 2 indentations x 3 tails x main/included, through the string API and (sampled) Program.assemble; "
                 "non-trivial = distinct cases")
     ctx.trusted = ["TLC 1.8", "spec/ErrLoc.tla", "tolerant file:line[:col] extraction (regex) in harness/drivers.py"]
     ctx.assumptions = ["zero-based lines and columns as the statement says; any file:line[:col] occurrence with the right numbers counts"]
@@ -24,10 +24,18 @@ def run(ctx) -> None:
     # column of its first character, for every input of <= 4/5 characters over two alphabets
     from harness import scanmc
     scanmc.design(ctx, 4 if ctx.quick else 5, families=("operands", "misc"))
+    scanmc.refute_old_size_error(ctx)
     vecs = [v for v in g.printed if isinstance(v, dict) and "c" in v]
     if len(vecs) < 500:
         raise tlc.TLCFailure("GenC17 produced too few cases")
     tasks = [{"main": v["c"]["main"], "part": v["c"]["part"], "final_newline": v["c"]["final_newline"], "text": v["c"]["req"]["text"]} for v in vecs]
+    # the same cases through the file API (Program.assemble): all with characters that other line-splitting conventions
+    # treat as line ends or lines ending in a bare 0, and a sample of the rest
+    nstr = len(tasks)
+    for k, v in enumerate(list(vecs)):
+        if any(x in ("ffc", "vtstr", "zeroend") for x in v["pre"]) or (k + ctx.seed) % (5 if ctx.quick else 2) == 0:
+            tasks.append(dict(tasks[k], entry="file"))
+            vecs.append(dict(v, entry="file"))
     res = Pool().map("errloc_case", tasks, timeout=30)
     recs = []
     for k, (v, o) in enumerate(zip(vecs, res)):
@@ -48,7 +56,7 @@ def run(ctx) -> None:
         v = vecs[int(rj["id"])]
         o = res[int(rj["id"])]
         kind = rj["clause"].split("(")[0].strip()
-        ctx.violation(f"{v['fault']}/{v['where']}/{v['tail']}: {kind[:48]}", rj["clause"],
+        ctx.violation(f"{v['fault']}/{v['where']}/{v['tail']}{'/file-api' if v.get('entry') else ''}: {kind[:48]}", rj["clause"],
                       {"task": tasks[int(rj["id"])], "required": v["c"]["req"], "error_text": o["err"], "locs": o["locs"], "pre": v["pre"]})
 
 
